@@ -1397,10 +1397,10 @@ func (vm *VM) run() (Addr, bool) {
 					iter := v.MapRange()
 					for iter.Next() {
 						if b != 0 {
-							vm.setFromReflectValue(b, iter.Key())
+							vm.setRangeValue(b, iter.Key())
 						}
 						if c != 0 {
-							vm.setFromReflectValue(c, iter.Value())
+							vm.setRangeValue(c, iter.Value())
 						}
 						vm.pc = bodyAddress
 						addr, breakOut := vm.run()
@@ -1437,7 +1437,7 @@ func (vm *VM) run() (Addr, bool) {
 							break
 						}
 						if b != 0 {
-							vm.setFromReflectValue(b, u)
+							vm.setRangeValue(b, u)
 						}
 						vm.pc = bodyAddress
 						addr, breakOut := vm.run()
@@ -1468,7 +1468,7 @@ func (vm *VM) run() (Addr, bool) {
 							vm.setInt(b, int64(i))
 						}
 						if c != 0 {
-							vm.setFromReflectValue(c, v.Index(i))
+							vm.setRangeValue(c, v.Index(i))
 						}
 						vm.pc = bodyAddress
 						addr, breakOut := vm.run()
